@@ -167,7 +167,7 @@ Section Chain.
     | None => ok = false
     end.
   Proof.
-    intros Hwf Hc Hrun. destruct o as [ms|sc ms| |]; simpl in Hrun |- *.
+    intros Hwf Hc Hrun. destruct o as [ms|sc ms| | |f b|k]; simpl in Hrun |- *.
     - destruct (append_mws_spec _ _ _ _ _ _ _ _ Hwf Hrun) as (Hwf' & _ & Hok & Hc').
       split; auto. destruct (has_nil ms); simpl in Hok; subst ok; auto. split; auto.
       rewrite Hc' by reflexivity. rewrite Hc, map_app, map_map. reflexivity.
@@ -187,11 +187,13 @@ Section Chain.
       rewrite Hl. destruct Hwf as (Hlt & _). rewrite (contents_same_arr h h1 s) by (apply arr_app_old; assumption).
       rewrite Hc. reflexivity.
     - inversion Hrun; subst. auto.
+    - inversion Hrun; subst. auto.
+    - inversion Hrun; subst. auto.
   Qed.
 
   Lemma spec_globals_cons o r acc :
     spec_globals (o :: r) acc = match spec_globals [o] acc with Some a => spec_globals r a | None => None end.
-  Proof. destruct o as [ms|sc ms| |]; simpl; try destruct (has_nil ms); reflexivity. Qed.
+  Proof. destruct o as [ms|sc ms| | |f b|k]; simpl; try destruct (has_nil ms); reflexivity. Qed.
 
   Lemma apply_globs_spec opts : forall (h : heap) s acc h' s' ok,
     wf h s -> contents h s = map mk_glob acc -> apply_globs grow h s opts = (h', s', ok) ->
